@@ -1,6 +1,7 @@
 package props
 
 import (
+	"context"
 	"encoding/json"
 	"errors"
 	"fmt"
@@ -402,7 +403,9 @@ func (c04) Exec(r *kit.Run) {
 	if err := interp.Exec(sc.Program); err != nil {
 		kit.Bug("c04 program does not load: %v\n%s", err, sc.Program)
 	}
-	sols, err := interp.Query(sc.Query + ".")
+	// the skeletons are finite: a query that needs more than 200000 trampoline steps does not terminate
+	ctx := kit.NewSimCtx(200000, context.Canceled)
+	sols, err := interp.QueryContext(ctx, sc.Query+".")
 	if err != nil {
 		kit.Bug("c04 query does not parse: %v\n%s", err, sc.Query)
 	}
@@ -429,6 +432,10 @@ func (c04) Exec(r *kit.Run) {
 	}
 	sols.Close()
 	r.Steps(visits + len(events))
+	if ctx.Fired() {
+		r.Fail("runaway", "query-does-not-terminate", "the query did not end within 200000 trampoline steps (the reference model ends with %s after %d events)\n  query: %s\n  program: %s\n  plan: %v\n  first events: %v", wantOutcome, len(m.events), sc.Query, strings.ReplaceAll(sc.Program, "\n", " "), sc.Plan, tail(events, 12))
+		return
+	}
 	r.Logf("query: %s\nprogram:\n%splan: %v\nimplementation: %v -> %s\nmodel:          %v -> %s", sc.Query, sc.Program, sc.Plan, events, gotOutcome, m.events, wantOutcome)
 
 	if wantOutcome == "cap" || gotOutcome == "cap" || len(m.events) > c04MaxEvents {
@@ -497,4 +504,11 @@ func (c04) Exec(r *kit.Run) {
 		}
 		r.Fail("wrong-catch", "outcome:"+cls(wantOutcome)+"-expected:"+cls(gotOutcome)+"-returned", "%s", msg)
 	}
+}
+
+func tail(s []string, n int) []string {
+	if len(s) > n {
+		return s[:n]
+	}
+	return s
 }
